@@ -107,6 +107,9 @@ def run_shard(pid, tier, seed, shard, nshards, scale=1.0, only_case=None):
     """Runs one shard in this process; returns a JSON-serialisable dict."""
     from vf import monitors
     mod = load_prop(pid)
+    if tier == 'thorough':
+        # the thorough tier of the cheap checks runs proportionally more cases (module attribute)
+        scale = scale * getattr(mod, 'THOROUGH_SCALE', 1)
     ctx = Ctx(pid, tier, seed, shard, nshards, scale)
     reach = monitors.ReachMonitor(getattr(mod, 'ANCHORS', []))
     evaluations = 0
